@@ -87,6 +87,8 @@ WantKinds == {"none",
               "repr",      \* repr of the value                                    (must pass)
               "str",       \* str of the value, differs from repr                  (must fail)
               "c_replace", "c_append", "c_prepend", "c_drop",    \* single corruptions (must fail)
+              "c_stale",   \* what was printed BEFORE the previous want, followed by everything since it   (must fail:
+                           \* a want - checked, ignored or skipped - ends the stretch of output a later want can refer to)
               "tb_exact",  \* traceback block, final line = the exception          (pass on raising code)
               "tb_stack",  \* same with stack lines in between
               "tb_msg",    \* right type, other message      (pass only under IGNORE_EXCEPTION_DETAIL)
@@ -173,6 +175,9 @@ PrevWant(p, k, opts) ==        \* index of the last running part before k that c
 Since(p, k, opts) == SinceFrom(p, PrevWant(p, k, opts) + 1, k, opts)
 
 DropLast(s) == SubSeq(s, 1, Len(s) - 1)
+\* output of the want-less parts in front of the previous want (what that want had at its disposal besides its own part's output)
+Stale(p, k, opts) == LET pw == PrevWant(p, k, opts) IN
+                     IF pw = 0 THEN <<>> ELSE SinceFrom(p, PrevWant(p, pw, opts) + 1, pw - 1, opts)
 WantText(p, k, opts) ==
   LET w == p[k].want
       all == Since(p, k, opts)
@@ -185,6 +190,7 @@ WantText(p, k, opts) ==
        [] w = "c_append"  -> Append(base, Fresh(k))
        [] w = "c_prepend" -> <<Fresh(k)>> \o base
        [] w = "c_drop"    -> DropLast(all)
+       [] w = "c_stale"   -> Stale(p, k, opts) \o all
        [] w = "nontb"     -> <<Fresh(k)>>
        [] w \in TbWants   -> <<TbTok(k)>>
        [] OTHER           -> <<>>
@@ -202,6 +208,8 @@ WantFits(p, k, opts) ==
        [] w \in {"c_replace", "c_append", "c_prepend"} ->
                         completes /\ (Since(p, k, opts) # <<>> \/ ValueKind(b) \in {"val", "none"})
        [] w = "c_drop" -> completes /\ Len(Since(p, k, opts)) >= 2
+       [] w = "c_stale" -> completes /\ Since(p, k, opts) # <<>> /\ Stale(p, k, opts) # <<>>
+                           /\ p[PrevWant(p, k, opts)].want \notin TbWants      \* (an expected-exception check leaves the buffer alone)
        [] w = "nontb"  -> RaisesExc(b)
        [] w \in TbWants -> RaisesExc(b) \/ (w = "tb_exact" /\ completes /\ b \in {"exec", "execp", "eval"})
        [] OTHER -> FALSE
